@@ -65,6 +65,16 @@ def ff_role(eng, res, rule="R-FF-ROLE"):
         ok = holds.get(glb) == prm
         res.ob(rule, f, f"cache-key:{prm}", "a cache-key comparison pairs a parameter with the module variable that is assigned from that very parameter on the miss path", n, ok,
                f"{prm} is compared with {glb}, which " + (f"is assigned from {holds[glb]}" if glb in holds else "is never assigned"))
+    for prm, glb, n in cmps:
+        stale = []
+        for d in flow.reaching(prm, cfg.node_of(n)):
+            if d.kind == "param":
+                continue
+            reads = {x.id for x in ast.walk(d.value) if isinstance(x, ast.Name)} if d.value is not None else {"?"}
+            if reads & flow.globals_declared or d.value is None:
+                stale.append(f"line {d.stmt.lineno}: {src(d.stmt)[:60]}")
+        res.ob(rule, f, f"cache-key-own-argument:{prm}", "what is compared with the cached name is the caller's argument, not a value taken from the cache's own state (earlier calls)", n, not stale,
+               "; ".join(stale))
     res.ob(rule, f, "cache-key-complete", "both file names are part of the cache key", f.node, seen_params == {p_rules, p_nb}, f"compared parameters: {sorted(seen_params)}")
     # the miss path stores the new object and it is what is returned
     obj = [g for g, ns in assigns.items() if any(isinstance(x.value, ast.Call) for x in ns)]
@@ -256,6 +266,33 @@ def ff_type_ids(eng, res, rule="R-FF-TYPE-ID"):
     res.ob(rule, nb, "param-table", "one parameter record per known type name, its mass read from the mass column of that type's own line", nb.node, e2 is not None)
 
 
+def ff_rule_verbatim(eng, res, rule="R-FF-RULE-VERBATIM"):
+    """The matcher types the atom a rule's pattern matches.  The bundled rules are single-atom recursive environments
+    `[$(...)]`, which is what makes the typed atom independent of the numbering; so the pattern text must reach RDKit
+    as it stands in the file (field 4, stripped of blanks only) and every stored rule must be tried."""
+    rd = eng.prog.func("forcefield_helper.SMARTS_ASSIGNMENTS._read_smarts_rules")
+    res.unit(rd)
+    fl = eng.flow(rd)
+    stores = [n for n in own_nodes(rd.node) if isinstance(n, ast.Subscript) and isinstance(n.ctx, ast.Store) and src(n.value) == "self._rule_dict"]
+    ok = len(stores) == 1
+    why = f"{len(stores)} store(s) into the rule table"
+    if ok:
+        k = fl.expand(stores[0].slice, fl.cfg.node_of(stores[0]))
+        t = src(k)
+        import re
+
+        ok = re.fullmatch(r"§unpack\((.+)\.split\('\|'\), \(3,\)\)\.strip\(\)", t) is not None and "[" not in t.split(".split(")[0].replace("§elem(", "")
+        why = f"rule key = {t[:120]}"
+    res.ob(rule, rd, "rule-text-verbatim", "a rule's pattern is stored as written in the file (4th field, blanks stripped, nothing cut or rewritten)", stores[0] if stores else rd.node, ok, why)
+    g = eng.prog.func("forcefield_helper.SMARTS_ASSIGNMENTS.get_type_assignments")
+    res.unit(g)
+    gf = eng.flow(g)
+    ms = calls(g, "MolFromSmarts")
+    ok = len(ms) == 1 and ms[0].args and src(gf.expand(ms[0].args[0], gf.cfg.node_of(ms[0]))) == "§elem(self._rule_dict)"
+    res.ob(rule, g, "pattern-is-stored-rule", "every stored rule text, unchanged, is the pattern handed to RDKit", ms[0] if ms else g.node, ok,
+           f"{[src(gf.expand(c.args[0], gf.cfg.node_of(c)))[:80] for c in ms if c.args]}")
+
+
 def check(eng, res):
     res.doc("R-FF-TYPE-ID", "type ids are injective (counter in lockstep with new types), the id and name tables are inverse, parameters are looked up through them")
     res.doc("R-FF-ROLE", "argument-role dataflow in get_assignment_class: constructor roles, cache key pairs, every compared variable assigned")
@@ -265,6 +302,12 @@ def check(eng, res):
     ff_guards(eng, res)
     ff_defaults(eng, res)
     ff_type_ids(eng, res)
+    from . import c06
+
+    res.doc("R-FULLY", "fully_generated == no open descriptor (what 'partially generated' means; shared with C06)")
+    c06.fully(eng, res)
+    res.doc("R-FF-RULE-VERBATIM", "rule patterns reach the matcher exactly as written in the rule file")
+    ff_rule_verbatim(eng, res)
     g = eng.prog.func("forcefield_helper.SMARTS_ASSIGNMENTS.get_type_assignments")
     for n in own_nodes(g.node):
         if isinstance(n, ast.Expr) and isinstance(n.value, ast.Call) and callee_name(n.value) in ("RuntimeError", "ValueError", "Exception"):
